@@ -322,7 +322,7 @@ impl Monitor for C12 {
         vec![("aggregate", tier.pick(8400, 168_000)), ("ties", tier.pick(600, 12_000)), ("structures", tier.pick(30_000, 600_000)), ("nan_scoring", tier.pick(3_000, 60_000)), ("single_class", tier.pick(1_500, 30_000))]
     }
     fn rule(&self) -> &'static str {
-        "case i -> objective (i mod 7), data-set size from {1,2,3,40,63,64,65,127,128,129,200,257} (i/7 mod 12; the parallel chunk is 64), soft-max output or not, output width 1 or >1, tolerance from {f32::MIN_POSITIVE, 1e-9, log-uniform [1e-12,1e-6], log-uniform [1e-6,0.5], log-uniform [1.5,1e4]}, pool of 1..16 threads; random network ending in a dense layer (dense/conv/deconv/pool before it); in every fifth non-soft-max case a hidden dense layer is soft-max; in every fourth case the output layer itself is the range of a loop connection (1..3 iterations, any of the five loop accumulations, with and without input skips). One data set in five is a slow walk (consecutive inputs a few 1e-6 apart), one in ten repeats earlier inputs exactly. One squared-error case in six contains a sample whose loss overflows to +inf (target 3e20): the reported loss must then not be finite and the accuracy still averages over all samples. One non-soft-max case in five uses exactly one-hot targets (scored by the tolerance fraction all the same). Soft-max targets are one-hot, soft probabilities, log-probabilities (all entries negative) or arbitrary reals with a unique maximum. Targets are generated from the network's own predictions so that every component is clearly inside (an exact hit or |t-p| <= tol/2) or clearly outside (>= 2 tol + 0.01) the tolerance and arg-max ties do not occur. Oracle: harness-side aggregation over the library's own predict() and objective loss(): mean loss (f64, bound n*eps), accuracy by the stated rule; predict_batch(xs)[i] must be bit-equal to predict(xs[i]) in input order (also for 0 inputs), predict(x) bit-equal to the last activation of forward(x). Every second case repeats validate() and predict_batch() on the same network with a shorter prefix of the data. ties: soft-max outputs with exactly equal maxima (uniform distribution): the accuracy must equal the frequency of some single class among the targets, whatever the tie-breaking convention. structures: chains of 3..8 layers (dense / spatial / mixed) with 0..2 skip connections and 1..3 loop connections in any arrangement the library accepts (disjoint, nested, overlapping ranges, with and without input skips), all 5 x 5 accumulation pairs: predict bit-equal to the final activation of forward, predict_batch bit-equal to predict of each input (configurations on which both forward and predict panic are counted, not judged). nan_scoring: non-soft-max outputs with NaN target components, NaN inputs (NaN predictions) or a NaN tolerance: a component whose comparison involves NaN is not within the tolerance and scores as a miss; likewise no distance is below a negative tolerance, distances 1.2, 3 and tol/2 are within a tolerance above one (1.5 ... f32::MAX) while 2 tol + 1 is not, and every finite distance is within an infinite tolerance; only the accuracy is judged. single_class: a soft-max output layer with one unit (constant prediction 1): arg-max agreement holds for every sample, accuracy 1 whatever the targets. Distinct = distinct (network, objective, size, tolerance) descriptors."
+        "case i -> objective (i mod 7), data-set size from {1,2,3,40,63,64,65,127,128,129,200,257} (i/7 mod 12; the parallel chunk is 64), soft-max output or not, output width 1 or >1, tolerance from {f32::MIN_POSITIVE, 1e-9, log-uniform [1e-12,1e-6], log-uniform [1e-6,0.5], log-uniform [1.5,1e4]}, pool of 1..16 threads; random network ending in a dense layer (dense/conv/deconv/pool before it); in every fifth non-soft-max case a hidden dense layer is soft-max; in every fourth case the output layer itself is the range of a loop connection (1..3 iterations, any of the five loop accumulations, with and without input skips). One data set in five is a slow walk (consecutive inputs a few 1e-6 apart), one in ten repeats earlier inputs exactly, one in ten contains runs of one input handed over as the same tensor object with independently drawn targets. One squared-error case in six contains a sample whose loss overflows to +inf (target 3e20): the reported loss must then not be finite and the accuracy still averages over all samples. One non-soft-max case in five uses exactly one-hot targets (scored by the tolerance fraction all the same). Soft-max targets are one-hot, soft probabilities, log-probabilities (all entries negative) or arbitrary reals with a unique maximum. Targets are generated from the network's own predictions so that every component is clearly inside (an exact hit or |t-p| <= tol/2) or clearly outside (>= 2 tol + 0.01) the tolerance and arg-max ties do not occur. Oracle: harness-side aggregation over the library's own predict() and objective loss(): mean loss (f64, bound n*eps), accuracy by the stated rule; predict_batch(xs)[i] must be bit-equal to predict(xs[i]) in input order (also for 0 inputs), predict(x) bit-equal to the last activation of forward(x). Every second case repeats validate() and predict_batch() on the same network with a shorter prefix of the data. ties: soft-max outputs with exactly equal maxima (uniform distribution): the accuracy must equal the frequency of some single class among the targets, whatever the tie-breaking convention. structures: chains of 3..8 layers (dense / spatial / mixed) with 0..2 skip connections and 1..3 loop connections in any arrangement the library accepts (disjoint, nested, overlapping ranges, with and without input skips), all 5 x 5 accumulation pairs: predict bit-equal to the final activation of forward, predict_batch bit-equal to predict of each input (configurations on which both forward and predict panic are counted, not judged). nan_scoring: non-soft-max outputs with NaN target components, NaN inputs (NaN predictions) or a NaN tolerance: a component whose comparison involves NaN is not within the tolerance and scores as a miss; likewise no distance is below a negative tolerance, distances 1.2, 3 and tol/2 are within a tolerance above one (1.5 ... f32::MAX) while 2 tol + 1 is not, and every finite distance is within an infinite tolerance; only the accuracy is judged. single_class: a soft-max output layer with one unit (constant prediction 1): arg-max agreement holds for every sample, accuracy 1 whatever the targets. Distinct = distinct (network, objective, size, tolerance) descriptors."
     }
     fn assumptions(&self) -> Vec<&'static str> {
         vec!["boundary semantics (|t-p| == tol, arg-max ties) are unspecified and not generated; NaN losses are not judged, a NaN comparison is read as not within the tolerance (nan_scoring)", "per-sample predict() and loss() are trusted here (they are the subject of C02/C06)"]
@@ -438,6 +438,9 @@ impl Monitor for C12 {
             let x: Vec<f32> = match (family, xs.last()) {
                 (0 | 1, Some(prev)) => prev.iter().map(|v| v + rng.f32_in(1e-6, 6e-6) * if rng.bool() { 1.0 } else { -1.0 }).collect(),
                 (2, Some(_)) if rng.chance(0.3) => xs[rng.range(0, xs.len() - 1)].clone(),
+                // runs of the same input (over-sampled data sets); these samples are handed
+                // over as the SAME tensor object, their targets are drawn independently
+                (3, Some(prev)) if rng.chance(0.5) => prev.clone(),
                 _ => (0..cfg.input.count()).map(|_| rng.f32_in(-1.0, 1.0)).collect(),
             };
             xs.push(x);
@@ -566,7 +569,17 @@ impl Monitor for C12 {
         let mean_abs: f64 = losses.iter().map(|l| (*l as f64).abs()).sum::<f64>() / n as f64;
         let mean_acc: f64 = expect_acc.iter().sum::<f64>() / n as f64;
 
-        let xr: Vec<&Tensor> = x_t.iter().collect();
+        let mut xr: Vec<&Tensor> = x_t.iter().collect();
+        if family == 3 {
+            let mut shared = 0u64;
+            for i in 1..n {
+                if xs[i] == xs[i - 1] {
+                    xr[i] = xr[i - 1];
+                    shared += 1;
+                }
+            }
+            out.count("samples_passed_as_the_same_tensor_object_as_their_predecessor", shared);
+        }
         let tr: Vec<&Tensor> = t_t.iter().collect();
         let (res, _events) = in_cached_pool(threads, || {
             let v = guard(|| net.validate(&xr, &tr, tol));
